@@ -10,6 +10,8 @@ def main (args : List String) : IO UInt32 := do
   | ["disk", "mem"] => Driver.lineLoop Driver.Disk.memStep none; return 0
   | ["disk", "file"] => Driver.lineLoop Driver.Disk.fileStep none; return 0
   | ["disk", "spec"] => Driver.lineLoop Driver.Disk.specStep none; return 0
-  | ["fs", "ref"] => Driver.lineLoop Driver.Fs.refStep GooseVerif.Model.Fs.Ref.empty; return 0
+  | ["fs", "ref"] => Driver.lineLoop Driver.Fs.refStepX GooseVerif.Model.Fs.Ref.empty; return 0
+  | ["fs", "mem"] => Driver.lineLoop Driver.Fs.memStep GooseVerif.Model.Fs.MemFs.empty; return 0
+  | ["fs", "dir"] => Driver.lineLoop Driver.Fs.dirStep GooseVerif.Model.Fs.Os.empty; return 0
   | ["wt"] => Driver.lineLoop Driver.Prim.wtStep (); return 0
   | _ => IO.eprintln "usage: driver <enc|prim|wt>"; return 2
